@@ -560,6 +560,11 @@ class Circuit(Unitary, StateVectorMap, Collection[Operation]):
 
         perm = [int(q) for q in qudit_permutation]
 
+        radix_list = list(self.radixes)
+        for qudit_index, radix in enumerate(self.radixes):
+            radix_list[perm[qudit_index]] = radix
+        self._radixes = tuple(radix_list)
+
         perm_point = lambda p: CircuitPoint(p.cycle, perm[p.qudit])
         perm_point_or_none = lambda p: perm_point(p) if p is not None else p
 
